@@ -49,13 +49,15 @@ static MMinterm randomMM(Rng& r, const Shape& sh, bool rel, int style) {
     return m;
 }
 
+static std::vector<int> g_levelOf;   // minterm positions are levels; level of variable v in the forest under test
 static void fillLib(const MMinterm& mm, bool rel, int n, minterm& m) {
     for (int v = 1; v <= n; v++) {
+        const unsigned lv = unsigned(g_levelOf[size_t(v)]);
         int f = mm.from[size_t(v)] == -1 ? DONT_CARE : mm.from[size_t(v)];
-        if (!rel) m.setVar(unsigned(v), f);
+        if (!rel) m.setVar(lv, f);
         else {
             int t = mm.to[size_t(v)] == -1 ? DONT_CARE : mm.to[size_t(v)] == -2 ? DONT_CHANGE : mm.to[size_t(v)];
-            m.setVars(unsigned(v), f, t);
+            m.setVars(lv, f, t);
         }
     }
     m.setValue(toRV(mm.value));
@@ -85,6 +87,15 @@ static void run(Ctx& c) {
     World w(sh);
     forest* f = makeForest(w.dom, fs);
     int n = sh.n();
+    // one case in four: the forest has a random variable order (construction and evaluation must not depend on it)
+    if (n >= 2 && (fs.isMT() || (!rel && fs.isEVP())) && r.chance(1, 4)) {
+        std::vector<int> l2v(size_t(n + 1), 0), perm; for (int i = 1; i <= n; i++) perm.push_back(i);
+        r.shuffle(perm); for (int i = 1; i <= n; i++) l2v[size_t(i)] = perm[size_t(i - 1)];
+        try { f->reorderVariables(l2v.data()); c.count("cases_in_reordered_forest"); }
+        catch (MEDDLY::error& e) { if (e.getCode() != error::NOT_IMPLEMENTED) throw; }
+    }
+    g_levelOf.assign(size_t(n + 1), 0);
+    for (int i = 1; i <= n; i++) g_levelOf[size_t(f->getVarByLevel(i))] = i;
     std::vector<Val> alpha = alphabet(r, fs, true, false, true);   // includes values below the terminal precision (known class for rel/MT/real/IR)
     std::string sampleOps;
     uint64_t sig = 0;
